@@ -460,6 +460,85 @@ def run_directed(ctx):
         finally:
             w.close()
 
+# ---------------------------------------------------------------- scripted histories over literal texts
+# (name, files, steps); steps: ("open", f) ("ins", f, line, col, text) ("del", f, line, c0, c1) [single-line, no line break]
+# ("full", f, text) [whole-buffer change] ("save", f) [writes the buffer] ("write", f, text) [disk only] ("delete", f) [unlink + didClose]
+SCRIPTED = [
+    ("three-level EXTENDS chain over three files, the top type edited and saved",
+     {"sg.f90": "module sg\n implicit none\n type :: g_t\n  integer :: g_old\n end type g_t\nend module sg\n",
+      "sp.f90": "module sp\n use sg\n implicit none\n type, extends(g_t) :: p_t\n  integer :: p_one\n end type p_t\nend module sp\n",
+      "sc.f90": "module sc\n use sp\n implicit none\n type, extends(p_t) :: c_t\n  integer :: c_one\n end type c_t\ncontains\n subroutine use_c(x)\n  type(c_t) :: x\n  x%g_old = 1\n  x%g_new = 3\n  x%p_one = 2\n  x%\n end subroutine use_c\nend module sc\n"},
+     [("open", "sg.f90"), ("open", "sp.f90"), ("open", "sc.f90"), ("query", "sc.f90"),
+      ("full", "sg.f90", "module sg\n implicit none\n type :: g_t\n  integer :: g_new\n  real :: g_more\n end type g_t\nend module sg\n"), ("save", "sg.f90")]),
+    ("a declaration commented out by typing one character, a doc comment reworded, then saved",
+     {"sd.f90": "module sd\n implicit none\n integer :: keep_me\n integer :: drop_me\n !> the old words\n integer :: documented\nend module sd\n",
+      "su.f90": "program su\n use sd\n implicit none\n keep_me = 1\n documented = 2\nend program su\n"},
+     [("open", "sd.f90"), ("open", "su.f90"), ("query", "su.f90"), ("ins", "sd.f90", 3, 1, "!"), ("del", "sd.f90", 4, 8, 11), ("ins", "sd.f90", 4, 8, "new"), ("save", "sd.f90")]),
+    ("an included file edited down to a comment and saved",
+     {"si_main.f90": "module si_main\n implicit none\n include 'si_inc.f90'\ncontains\n subroutine s()\n  k_from_inc = 1\n end subroutine s\nend module si_main\n",
+      "si_inc.f90": "integer :: k_from_inc\n"},
+     [("open", "si_main.f90"), ("open", "si_inc.f90"), ("query", "si_main.f90"), ("full", "si_inc.f90", "! nothing left\n"), ("save", "si_inc.f90")]),
+    ("the parent module of a submodule is deleted",
+     {"sq_par.f90": "module sq_par\n implicit none\n integer :: pvar\n interface\n  module subroutine foo()\n  end subroutine foo\n end interface\nend module sq_par\n",
+      "sq_sub.f90": "submodule (sq_par) sq_sub\ncontains\n module subroutine foo()\n  pvar = 1\n end subroutine foo\nend submodule sq_sub\n"},
+     [("open", "sq_par.f90"), ("open", "sq_sub.f90"), ("query", "sq_sub.f90"), ("delete", "sq_par.f90")]),
+]
+
+
+def run_scripted(ctx):
+    for what, files, steps in SCRIPTED:
+        root = tempfile.mkdtemp(prefix="verif_c10_s_")
+        try:
+            buf = {}
+            for n, t in files.items():
+                with open(os.path.join(root, n), "w") as f:
+                    f.write(t)
+            srv, conn = impl.make_server(root, extra=["--nthreads", "1"])
+            for st in steps:
+                n = st[1]
+                path = os.path.join(root, n)
+                if st[0] == "open":
+                    impl.did_open(srv, path); buf[n] = files[n]
+                elif st[0] == "query":
+                    battery(srv, conn, root, [n])          # fills whatever the handlers cache
+                elif st[0] in ("ins", "del"):
+                    lines = buf[n].split("\n")
+                    li = st[2]
+                    if st[0] == "ins":
+                        c0 = c1 = st[3]; txt = st[4]
+                    else:
+                        c0, c1, txt = st[3], st[4], ""
+                    lines[li] = lines[li][:c0] + txt + lines[li][c1:]
+                    buf[n] = "\n".join(lines)
+                    impl.did_change(srv, path, [{"range": {"start": {"line": li, "character": c0}, "end": {"line": li, "character": c1}}, "text": txt}])
+                elif st[0] == "full":
+                    nl = len(srv.workspace[path].contents_split)
+                    impl.did_change(srv, path, [{"range": {"start": {"line": 0, "character": 0}, "end": {"line": nl + 1, "character": 0}}, "text": st[2]}])
+                    buf[n] = st[2]
+                elif st[0] == "save":
+                    with open(path, "w") as f:
+                        f.write(buf[n])
+                    impl.did_save(srv, path)
+                elif st[0] == "write":
+                    with open(path, "w") as f:
+                        f.write(st[2])
+                elif st[0] == "delete":
+                    os.unlink(path); impl.did_close(srv, path); buf.pop(n, None)
+            names = sorted(n for n in files if os.path.exists(os.path.join(root, n)))
+            for n in names:                                  # quiescent: every open document saved and closed
+                if n in buf:
+                    impl.did_close(srv, os.path.join(root, n))
+            got = battery(srv, conn, root, names)
+            srv2, conn2 = impl.make_server(root, extra=["--nthreads", "1"])
+            want = battery(srv2, conn2, root, names)
+            ctx.count(("scripted", what), True)
+            if got != want:
+                diff = first_diff(got, want)
+                ctx.report("C10:history", "%s: the long-lived server answers differently from a fresh server: %s" % (what, diff[0]),
+                           {"kind": "counterexample", "input": {"history": [list(x) for x in steps], "files": files}, "implementation": diff[1], "oracle": diff[2]})
+        finally:
+            shutil.rmtree(root, ignore_errors=True)
+
 
 def first_diff(a, b):
     for k in sorted(set(a) | set(b)):
@@ -542,6 +621,7 @@ def run(ctx):
     q = ctx.quick()
     witness_collision(ctx)
     run_directed(ctx)
+    run_scripted(ctx)
     run_histories(ctx, 60 if q else 1000, 14 if q else 30)
 
 
